@@ -36,7 +36,8 @@ classdef("SwarmAlgorithm", bases=["GeneticAlgorithm"],
                  "r1_min": "Real", "r1_max": "Real", "r2_min": "Real", "r2_max": "Real",
                  "c1_min": "Real", "c1_max": "Real", "c2_min": "Real", "c2_max": "Real",
                  "min_weight": "Real", "max_weight": "Real", "n": "Int"})
-classdef("OMOPSO", bases=["SwarmAlgorithm"], fields={})
+classdef("OMOPSO", bases=["SwarmAlgorithm"],
+         fields={"uniform_mutator": "Ref[UniformMutator]", "non_uniform_mutator": "Ref[NonUniformMutation]"})
 classdef("SMPSO", bases=["SwarmAlgorithm"], fields={})
 classdef("PSOGA", bases=["SwarmAlgorithm"], fields={})
 # ghost_* fields are specification-only state (the objective call log of C05/C06/C19): number of calls of the user's
